@@ -85,7 +85,9 @@ func (w *walker) walk(v reflect.Value) {
 		if v.Type().Elem().Kind() == reflect.Uint8 {
 			h := fnv.New64a()
 			bs := make([]byte, v.Len())
-			reflect.Copy(reflect.ValueOf(bs), v)
+			for i := range bs { // element-wise: reflect.Copy refuses values reached through unexported fields
+				bs[i] = byte(v.Index(i).Uint())
+			}
 			h.Write(bs)
 			fmt.Fprintf(&w.b, "bytes[%d]#%x", v.Len(), h.Sum64())
 			return
